@@ -2,6 +2,7 @@
 from .. import obs
 
 LEVEL = "exploration"
+SUITE_MONITOR = True      # also judge the repository's own tests/doctests through rv/monitors.py
 RULE = ("A pool of FmtStr values engineered to contain same text / different formatting, same "
         "display / different run boundaries, empty runs, no-run values, False-valued attributes, "
         "quotes, backslashes, newlines and wide characters, plus seeded random values. ALL "
